@@ -1,6 +1,7 @@
 package main
 
 import (
+	"io/ioutil"
 	"encoding/json"
 	"fmt"
 	"math"
@@ -137,6 +138,30 @@ func init() {
 		} else {
 			obs["ok"] = true
 			obs["val"] = fromGo(res)
+		}
+		// the same lookup written as a template subscript c[k]: what the template sees is GetAttr's element, or null
+		// where GetAttr reports an error
+		if len(args) == 0 {
+			var got stick.Value
+			called := false
+			env := stick.New(&stick.MemoryLoader{Templates: map[string]string{"t": "{% do cap(c[k]) %}"}})
+			env.Functions["cap"] = func(ctx stick.Context, a ...stick.Value) stick.Value {
+				if len(a) > 0 {
+					got = a[0]
+				}
+				called = true
+				return nil
+			}
+			var xerr error
+			if p := guard(func() { xerr = env.Execute("t", ioutil.Discard, map[string]stick.Value{"c": v, "k": key}) }); p != "" {
+				obs["tpl"] = "panic"
+				obs["tpl_panic"] = p
+			} else if xerr != nil || !called {
+				obs["tpl"] = "error"
+			} else {
+				obs["tpl"] = "ran"
+				obs["tplval"] = fromGo(got)
+			}
 		}
 		return obs, nil
 	}
